@@ -27,6 +27,8 @@ package types
 //@ func InclusiveEndBytes
 //@   props C24,C02
 //@   panics_never
+//@   modifies elems(inclusiveBytes)
+//@   ensures [input-kept] forall i int :: 0 <= i && i < len(inclusiveBytes) ==> inclusiveBytes[i] == old(inclusiveBytes[i])
 //@   ensures [len] len(exclusiveBytes) == len(inclusiveBytes) + 1 && exclusiveBytes != nil
 //@   ensures [head] forall i int :: 0 <= i && i < len(inclusiveBytes) ==> exclusiveBytes[i] == old(inclusiveBytes[i])
 //@   ensures [last] exclusiveBytes[len(inclusiveBytes)] == 0
